@@ -68,7 +68,7 @@ struct Outcome {
 }
 
 macro_rules! hv_programs {
-    ($set:ident; $(($m:ident, $f:ident, $exp:ident);)*) => {
+    ($set:ident; $(($m:ident, $f:ident, $exp:ident, $run:ident);)*) => {
         mod $set {
             use super::*;
             pub const ALL: &[&str] = &[$(stringify!($f)),*];
@@ -120,10 +120,84 @@ fn is_env_failure(msg: &str) -> bool {
         || msg.contains("dep prebuild failed")
         || msg.contains("Blocking waiting for file lock")
         || msg.contains("No space left on device")
+        || msg.contains("PoisonError")
 }
 
 fn build_one(name: &str) -> Outcome {
     q::build_one(name).or_else(|| t::build_one(name)).unwrap_or_else(|| panic!("unknown program {name}"))
+}
+
+/// `runs` builds in THIS process (child mode): prints one JSON line {"verdict","msg","crate"} each.
+fn child_main(name: &str, runs: usize) {
+    std::panic::set_hook(Box::new(|_| {}));
+    let bins = BinNames::default();
+    let sub = tracing_subscriber::registry()
+        .with(tracing_subscriber::filter::LevelFilter::DEBUG)
+        .with(bins.clone());
+    tracing::subscriber::set_global_default(sub).expect("set tracing subscriber");
+    for _ in 0..runs {
+        bins.0.lock().unwrap().clear();
+        let o = build_one(name);
+        let krate = bins.0.lock().unwrap().last().cloned().unwrap_or_default();
+        println!("{}", json!({"verdict": o.verdict, "msg": o.msg, "crate": krate}));
+    }
+}
+
+/// Run one build in a child process: hydro_lang keeps process-wide state (static mutexes that a
+/// panic poisons, thread-locals), so one failing program must not influence the next one.
+/// The child's stderr carries rustc's diagnostics for generated code that does not compile.
+fn build_in_child(name: &str, tag: &str, runs: usize) -> Vec<(Outcome, String)> {
+    let exe = std::env::current_exe().unwrap();
+    let out = std::process::Command::new(exe)
+        .args(["--one", name, &runs.to_string()])
+        .env("VERIF_PROC_TAG", tag)
+        .stdin(std::process::Stdio::null())
+        .output()
+        .expect("spawn child");
+    let stdout = String::from_utf8_lossy(&out.stdout);
+    let stderr = String::from_utf8_lossy(&out.stderr);
+    let mut res = Vec::new();
+    for line in stdout.lines().filter(|l| l.starts_with("{\"")) {
+        let Ok(v) = serde_json::from_str::<hv_common::Value>(line) else { continue };
+        let verdict = match v["verdict"].as_str() {
+            Some("ok") => "ok",
+            _ => "panic",
+        };
+        let mut msg = v["msg"].as_str().unwrap_or("").to_string();
+        if verdict != "ok" && msg.contains("final build failed") {
+            // rustc's rendered diagnostics (hydro_lang prints them on stderr): keep the first errors
+            let clean = strip_ansi(&stderr);
+            let errs: Vec<&str> = clean.split("\n\n").filter(|b| b.contains("error")).take(6).collect();
+            msg.push_str("\n--- rustc:\n");
+            msg.push_str(&errs.join("\n\n"));
+        }
+        res.push((Outcome { verdict, msg }, v["crate"].as_str().unwrap_or("").to_string()));
+    }
+    while res.len() < runs {
+        let tail: String = strip_ansi(&stderr).chars().rev().take(1500).collect::<String>().chars().rev().collect();
+        res.push((
+            Outcome { verdict: "panic", msg: format!("builder process died ({:?}): {}", out.status, tail) },
+            String::new(),
+        ));
+    }
+    res
+}
+
+fn strip_ansi(s: &str) -> String {
+    let mut out = String::new();
+    let mut it = s.chars().peekable();
+    while let Some(c) = it.next() {
+        if c == '\u{1b}' {
+            for d in it.by_ref() {
+                if d.is_ascii_alphabetic() {
+                    break;
+                }
+            }
+        } else {
+            out.push(c);
+        }
+    }
+    out
 }
 
 fn main() {
@@ -132,6 +206,13 @@ fn main() {
     unsafe { std::env::set_var("CARGO_MANIFEST_DIR", env!("CARGO_MANIFEST_DIR")) };
     std::env::set_current_dir(env!("CARGO_MANIFEST_DIR")).unwrap();
     let args: Vec<String> = std::env::args().collect();
+    if args.len() == 4 && args[1] == "--one" {
+        // heap ballast differing per process tag (addresses must not influence the output)
+        let tagn: usize = std::env::var("VERIF_PROC_TAG").unwrap_or_default().bytes().map(|b| b as usize).sum();
+        let _ballast: Vec<Vec<u8>> = (0..(tagn % 97 + 5)).map(|i| vec![0u8; 1000 + 13 * i]).collect();
+        child_main(&args[2], args[3].parse().unwrap());
+        return;
+    }
     if args.len() < 5 {
         eprintln!("usage: progsim <p1,p2,..|all> <proc-tag> <runs> <abs-out.ndjson> [i/n]");
         std::process::exit(2);
@@ -150,40 +231,29 @@ fn main() {
         names = names.into_iter().enumerate().filter(|(k, _)| k % n == i).map(|(_, s)| s).collect();
     }
     let runs: usize = args[3].parse().unwrap();
-    // heap ballast differing per process tag (addresses must not influence the output)
-    let tagn: usize = args[2].bytes().map(|b| b as usize).sum();
-    let _ballast: Vec<Vec<u8>> = (0..(tagn % 97 + 5)).map(|i| vec![0u8; 1000 + 13 * i]).collect();
-
-    std::panic::set_hook(Box::new(|_| {}));
-    let bins = BinNames::default();
-    let sub = tracing_subscriber::registry()
-        .with(tracing_subscriber::filter::LevelFilter::DEBUG)
-        .with(bins.clone());
-    tracing::subscriber::set_global_default(sub).expect("set tracing subscriber");
-
     let examples = std::path::Path::new(env!("CARGO_MANIFEST_DIR"))
         .join("../target/hydro_trybuild/hv_prog_flows/dylib-examples/examples");
     let mut t = Trace::create(&args[4]);
     let mut ok = 0;
     for name in &names {
-        for run in 1..=runs {
-            bins.0.lock().unwrap().clear();
-            let mut o = build_one(name);
-            // The trybuild target directory is shared with other harness crates; a concurrent build
-            // of another project can invalidate the prebuilt dependencies under our feet.  That is
-            // an environment failure (cargo), not a verdict about the program: retry, then say so.
-            let mut attempts = 1;
-            while o.verdict == "panic" && is_env_failure(&o.msg) && attempts < 4 {
-                std::thread::sleep(std::time::Duration::from_secs(5 * attempts));
-                bins.0.lock().unwrap().clear();
-                o = build_one(name);
-                attempts += 1;
-            }
+        let mut results = build_in_child(name, &args[2], runs);
+        // The trybuild target directory is shared with other harness crates; a concurrent build
+        // of another project can invalidate the prebuilt dependencies under our feet.  That is
+        // an environment failure (cargo), not a verdict about the program: retry, then say so.
+        let mut attempts = 1;
+        // A rustc failure of the generated code is retried as well: a genuine one is deterministic
+        // and persists, one caused by a concurrent rewrite of the shared staged sources does not.
+        while results.iter().any(|(o, _)| o.verdict == "panic" && (is_env_failure(&o.msg) || o.msg.contains("final build failed")))
+            && attempts < 4
+        {
+            std::thread::sleep(std::time::Duration::from_secs(5 * attempts));
+            results = build_in_child(name, &args[2], runs);
+            attempts += 1;
+        }
+        for (i, (mut o, krate)) in results.into_iter().enumerate() {
             if o.verdict == "panic" && is_env_failure(&o.msg) {
                 o.verdict = "env";
             }
-            let seen = bins.0.lock().unwrap().clone();
-            let krate = seen.last().cloned().unwrap_or_default();
             let src = if krate.is_empty() {
                 String::new()
             } else {
@@ -192,8 +262,8 @@ fn main() {
             if o.verdict == "ok" {
                 ok += 1;
             }
-            t.ev(json!({"e":"sim","prog":name,"proc":args[2],"run":run,"verdict":o.verdict,
-                        "msg": o.msg.chars().take(4000).collect::<String>(),
+            t.ev(json!({"e":"sim","prog":name,"proc":args[2],"run":i + 1,"verdict":o.verdict,"attempts":attempts,
+                        "msg": o.msg.chars().take(6000).collect::<String>(),
                         "crate":krate,"src":if src.is_empty() { String::new() } else { fnv_hex(&src) },"srclen":src.len()}));
         }
     }
